@@ -5,6 +5,7 @@ import core, lib
 from core import call_matches, call_names, op_place, op_local, backward_slice
 from props import shared
 
+WITNESSES = ['IteratorBorrowsHandle', 'HandleIsOpaque']      # compile-fail witnesses against the public surface (thorough tier; engine.WITNESSES)
 LEVEL = 'other'
 FLOOR = 76      # 70% of the 109 obligation instances derived on the tree the rules were last reviewed against
 EXPLANATION = ('Decided on all MIR paths: a transaction is published to the commit overlay and queued under one write guard; a log record '
